@@ -39,10 +39,11 @@ type params struct {
 	blocking                   bool
 	stream                     []string // series name per metric, in dispatch order
 	maxFail                    int
+	dispatchers                int // 2: every series is dispatched by its own goroutine, statement-level interleaving inside Dispatch
 }
 
 func (p params) String() string {
-	return fmt.Sprintf("concurrency=%d bufSize=%d flushMaxNum=%d blocking=%v stream=%v maxFail=%d", p.conc, p.bufSize, p.flushMaxNum, p.blocking, p.stream, p.maxFail)
+	return fmt.Sprintf("concurrency=%d bufSize=%d flushMaxNum=%d blocking=%v stream=%v maxFail=%d dispatchers=%d", p.conc, p.bufSize, p.flushMaxNum, p.blocking, p.stream, p.maxFail, p.dispatchers)
 }
 
 type attempt struct {
@@ -147,19 +148,44 @@ func (e *exec) Body() {
 	addr := util.AddrToPath(cfg.Addr)
 	d0 := harn.Count("dest=" + addr + ".unit=Metric.action=drop.reason=queue_full")
 	f0 := harn.Count("dest=" + addr + ".unit=Err.type=flush")
-	for i, name := range e.p.stream {
-		ts := 1000 + i
-		e.sent = append(e.sent, fmt.Sprintf("%s@%d", name, ts))
-		t0 := vrt.Elapsed()
-		r.Dispatch([]byte(fmt.Sprintf("%s %d %d", name, i, ts)))
-		if !e.p.blocking && vrt.Elapsed() != t0 && e.viol == "" {
-			e.viol = fmt.Sprintf("non-blocking mode: dispatching metric %d took virtual time", i)
-		}
-		if i == len(e.p.stream)/2 {
-			if vrt.Choose(2, "sleep across the flush timer") == 1 {
-				vrt.Sleep(1100 * time.Millisecond)
+	if e.p.dispatchers <= 1 {
+		for i, name := range e.p.stream {
+			ts := 1000 + i
+			e.sent = append(e.sent, fmt.Sprintf("%s@%d", name, ts))
+			t0 := vrt.Elapsed()
+			r.Dispatch([]byte(fmt.Sprintf("%s %d %d", name, i, ts)))
+			if !e.p.blocking && vrt.Elapsed() != t0 && e.viol == "" {
+				e.viol = fmt.Sprintf("non-blocking mode: dispatching metric %d took virtual time", i)
+			}
+			if i == len(e.p.stream)/2 {
+				if vrt.Choose(2, "sleep across the flush timer") == 1 {
+					vrt.Sleep(1100 * time.Millisecond)
+				}
 			}
 		}
+	} else {
+		// one input connection per series: the points of a series are handed over in order by
+		// one goroutine, different series concurrently
+		bySeries := map[string][]int{}
+		var order []string
+		for i, name := range e.p.stream {
+			if _, ok := bySeries[name]; !ok {
+				order = append(order, name)
+			}
+			bySeries[name] = append(bySeries[name], i)
+			e.sent = append(e.sent, fmt.Sprintf("%s@%d", name, 1000+i))
+		}
+		finished := 0
+		for _, name := range order {
+			name, idxs := name, bySeries[name]
+			vrt.GoNamed("conn-"+name, func() {
+				for _, i := range idxs {
+					r.Dispatch([]byte(fmt.Sprintf("%s %d %d", name, i, 1000+i)))
+				}
+				finished++
+			})
+		}
+		vrt.WaitUntil("join", func() bool { return finished == len(order) })
 	}
 	r.Shutdown()
 	e.sdDone = true
@@ -312,6 +338,20 @@ func main() {
 						}
 					}
 				}
+			}
+		}
+	}
+	// concurrent input connections: statement-level interleaving inside GrafanaNet.Dispatch
+	fmns, cstream := []int{1}, []string{a, c, a}
+	if rep.Thorough() {
+		fmns, cstream = []int{1, 2}, []string{a, c, a, c}
+	}
+	for _, buf := range []int{4} {
+		for _, fmn := range fmns {
+			for _, blocking := range []bool{false, true} {
+				p := params{conc: 2, bufSize: buf, flushMaxNum: fmn, blocking: blocking, stream: cstream, maxFail: 1, dispatchers: 2}
+				scns = append(scns, &vrt.Scenario{Name: p.String(), Cfg: vrt.Config{MaxSteps: 50000, Horizon: 30 * time.Minute, Groups: map[string]bool{"c17": true}}, Model: vrt.CostDelay, Bound: bound + 1,
+					New: func() vrt.Exec { return &exec{p: p} }})
 			}
 		}
 	}
